@@ -143,6 +143,7 @@ def parseTok (s : St) (t : String) : Option (List Choice) :=
   | ['K'] => some [.commitStopped]
   | ['Q'] => some []
   | 'G' :: rest => ((String.ofList rest).splitOn ",").mapM String.toNat? |>.map (fun _ => [])
+  | 'W' :: rest => ((String.ofList rest).splitOn ",").mapM String.toNat? |>.map (fun _ => [])
   | ['B'] => some [.abort]
   | ['D'] => some [.dispatch]
   | ['P'] => some [.panic]
